@@ -565,7 +565,9 @@ class NpyWriter(object):
     def __init__(self, path, shape, dtype, axis=0):
         assert axis == 0  # only concatenation along the first axis is supported right now
         # Only C order is supported at the moment.
-        self.shape = shape
+        # NOTE: plain Python integers, NumPy integers would be written as `np.int64(5)` in the
+        # header, which `np.load()` cannot parse.
+        self.shape = tuple(int(n) for n in shape)
         self.dtype = np.dtype(dtype)
         header = _npy_header(self.shape, self.dtype)
         version = None
